@@ -1161,8 +1161,8 @@ Proof.
   - apply code_at_code_of.
   - lia.
   - vm_compute. reflexivity.
-  - unfold below; cbn; lia.
-  - unfold below; cbn; lia.
+  - unfold below, ex_st, ex_T, ex_F; cbn [fst snd]; lia.
+  - unfold below, ex_st, ex_T, ex_F; cbn [fst snd]; lia.
   - apply ex_layout.
   - apply ex_vars.
   - split; [|exact A].
